@@ -31,9 +31,9 @@ type c18Event struct {
 	Name   string `json:"name"`
 	Expr   string `json:"expr"`
 	Doc    string `json:"doc"`
-	Shared bool   `json:"shared"`              // use the history's shared parsed tree / decoder / evaluator / printer
-	Out    string `json:"out,omitempty"`       // output format (default yaml)
-	Hist   bool   `json:"hist_only,omitempty"` // quick tier: used in histories only, not in the schedule exploration
+	Shared bool   `json:"shared"`                         // use the history's shared parsed tree / decoder / evaluator / printer
+	Out    string `json:"out,omitempty"`                  // output format (default yaml)
+	Hist   bool   `json:"hist_only,omitempty"`            // quick tier: used in histories only, not in the schedule exploration
 	NoPre  bool   `json:"no_header_preprocess,omitempty"` // the decoder is made with LeadingContentPreProcessing off (--header-preprocess=false)
 }
 
